@@ -93,12 +93,14 @@ def main():
         shutil.rmtree(os.path.join(VERIF, "build", "alt-" + h), ignore_errors=True)
     out = os.path.join(VERIF, "seeded", name)
     os.makedirs(out, exist_ok=True)
-    shutil.copy(os.path.join(seed, "patch.diff"), out)
-    shutil.copy(os.path.join(seed, "demo_test.go"), out)
+    if os.path.abspath(out) != seed:
+        shutil.copy(os.path.join(seed, "patch.diff"), out)
+        shutil.copy(os.path.join(seed, "demo_test.go"), out)
     meta = {}
     if os.path.exists(os.path.join(seed, "meta.json")):
         try:
             meta = json.load(open(os.path.join(seed, "meta.json")))
+            meta.pop("confirmation", None)
         except Exception:
             meta = {"raw": open(os.path.join(seed, "meta.json")).read()[:2000]}
     meta["confirmation"] = res
